@@ -175,6 +175,10 @@ func genCase(t *rapid.T, p sim.Profile) (c sim.Case, wide bool) {
 			c.Params.Base -= d
 		}
 		c.Params.Prefix = need
+		// a synthetic chain (no blocks below Base) cannot serve a retarget: keep every multiple of 2016 out of it
+		if lo, hi := c.Params.Base, c.Params.Base+uint32(need+len(c.Ops)+2); lo != 0 && lo/2016 != hi/2016 {
+			c.Params.Base = 0
+		}
 	}
 	// blocks that try to spend outputs consumed by an earlier block
 	for k := i + 1; k < len(c.Ops) && k < i+6; k++ {
